@@ -73,7 +73,7 @@ def cfg_strategy(draw, kinds=None, max_side=12):
     b, q = draw(scatu.family_strategy(order))
     colour = draw(st.sampled_from([False, False, True]))
     lo = 3 if order == 2 else 2
-    cfg.update(biort=b, qshift=q, colour=colour, bias=draw(scatu.bias_strategy(positive=True)),
+    cfg.update(biort=b, qshift=q, colour=colour, bias=draw(scatu.bias_strategy(positive=False)),
                size=[draw(st.integers(lo, 2 * max_side)), draw(st.integers(lo, 2 * max_side))])
     return cfg
 
@@ -85,6 +85,16 @@ def needs_three_channels(cfg):
 def _filters(cfg, rec):
     w = pywt.Wavelet(cfg['wave'])
     return (np.array(w.rec_lo), np.array(w.rec_hi)) if rec else (np.array(w.dec_lo), np.array(w.dec_hi))
+
+
+def _wave(cfg, rec):
+    """The `wave` argument: a name, or (with cfg['wave_row']) the 4-tuple of separate column / row filters."""
+    if not cfg.get('wave_row'):
+        return cfg['wave']
+    wc, wr = pywt.Wavelet(cfg['wave']), pywt.Wavelet(cfg['wave_row'])
+    if rec:
+        return tuple(np.array(a) for a in (wc.rec_lo, wc.rec_hi, wr.rec_lo, wr.rec_hi))
+    return tuple(np.array(a) for a in (wc.dec_lo, wc.dec_hi, wr.dec_lo, wr.dec_hi))
 
 
 def build(cfg, dtype=torch.float64):
@@ -99,13 +109,13 @@ def build(cfg, dtype=torch.float64):
             m = pw.DWT1DForward(J=cfg['J'], wave=cfg['wave'], mode=cfg['mode'])
             return m, lambda ins: _flat_out(m(ins[0]))
         if k == 'dwt2_fwd':
-            m = pw.DWTForward(J=cfg['J'], wave=cfg['wave'], mode=cfg['mode'])
+            m = pw.DWTForward(J=cfg['J'], wave=_wave(cfg, False), mode=cfg['mode'])
             return m, lambda ins: _flat_out(m(ins[0]))
         if k == 'dwt1_inv':
             m = pw.DWT1DInverse(wave=cfg['wave'], mode=cfg['mode'])
             return m, lambda ins: [m((ins[0], list(ins[1:])))]
         if k == 'dwt2_inv':
-            m = pw.DWTInverse(wave=cfg['wave'], mode=cfg['mode'])
+            m = pw.DWTInverse(wave=_wave(cfg, True), mode=cfg['mode'])
             return m, lambda ins: [m((ins[0], list(ins[1:])))]
         if k == 'swt':
             m = SWTForward(J=cfg['J'], wave=cfg['wave'], mode=cfg['mode'])
@@ -170,6 +180,10 @@ def input_shapes(cfg):
     if k in ('dwt1_fwd', 'dwt2_fwd', 'swt', 'dtcwt_fwd', 'afb2d', 'afb2d_nonsep', 'scat1', 'scat2'):
         return [tuple(size)]
     if k in ('dwt1_inv', 'dwt2_inv'):
+        if cfg.get('wave_row'):
+            kh = dwtu.level_lengths(size[0], dwtu.flen(cfg['wave']), cfg['mode'], cfg['J'])[1]
+            kw = dwtu.level_lengths(size[1], dwtu.flen(cfg['wave_row']), cfg['mode'], cfg['J'])[1]
+            return [(kh[-1], kw[-1])] + [(3, a, b) for a, b in zip(kh, kw)]
         lo, his = dwtu.pyr_shapes(size, dwtu.flen(cfg['wave']), cfg['mode'], cfg['J'])
         return [tuple(lo)] + [tuple(h) for h in his]
     if k == 'dtcwt_inv':
